@@ -346,6 +346,148 @@ theorem reverseLoop_inv (o : SFm.Ordering) (n : Nat) (is : List Nat) (l : List T
       | none => exact ih l' this
       | some e => exact this
 
+theorem removeIdxs_sublist {α : Type} (l : List α) (idxs : List Nat) : (removeIdxs l idxs).Sublist l := by
+  unfold removeIdxs
+  have h : ((l.zipIdx.filter (fun xi => !idxs.contains xi.2)).map (·.1)).Sublist (l.zipIdx.map (·.1)) :=
+    (List.filter_sublist).map _
+  have hz : l.zipIdx.map (·.1) = l := by simp
+  rw [hz] at h
+  exact h
+
+theorem delSliceX_inv (o : SFm.Ordering) (l l' : List Term) (a b : Option Int) (c : Int) (hs : OrderingInv o l)
+    (h : delSliceX l a b c = .ok l') : OrderingInv o l' := by
+  unfold delSliceX at h
+  split at h
+  · cases h
+  · simp only [Except.ok.injEq] at h
+    subst h
+    exact inv_sublist o hs (removeIdxs_sublist _ _)
+
+theorem remove_inv (o : SFm.Ordering) (l l' : List Term) (t : Option Term) (hs : OrderingInv o l)
+    (h : SFm.remove l t = .ok l') : OrderingInv o l' := by
+  unfold SFm.remove at h
+  split at h
+  · simp only [Except.ok.injEq] at h
+    subst h
+    exact inv_sublist o hs (List.eraseIdx_sublist _ _)
+  · cases h
+
+theorem normIdx_neg_one (n : Nat) : normIdx (-1) (n + 1) = some n := by
+  simp [normIdx]
+
+theorem sf_clearLoop_spec : ∀ (fuel : Nat) (l : List Term), l.length < fuel → clearLoop fuel l = some []
+  | 0, l, h => by omega
+  | fuel + 1, l, h => by
+    cases hl : l.length with
+    | zero =>
+      have : l = [] := List.length_eq_zero_iff.1 hl
+      subst this
+      simp [clearLoop, getItem, normIdx]
+    | succ n =>
+      have hg : ∃ t, getItem l (-1) = .ok t := by
+        have hn : n < l.length := by omega
+        refine ⟨l[n], ?_⟩
+        simp only [getItem, hl, normIdx_neg_one]
+        rw [List.getElem?_eq_getElem hn]
+      obtain ⟨t, hg⟩ := hg
+      have hd : delItem l (-1) = .ok (l.eraseIdx n) := by
+        simp only [delItem, hl, normIdx_neg_one]
+      simp only [clearLoop, hg, hd]
+      apply sf_clearLoop_spec fuel
+      rw [List.length_eraseIdx]
+      split <;> omega
+
+theorem filterMap_getElem?_sublist {α : Type} (l : List α) (is : List Nat) (h : is.Pairwise (· < ·)) :
+    (is.filterMap (fun i => l[i]?)).Sublist l := by
+  suffices ∀ j, (∀ i ∈ is, j ≤ i) → (is.filterMap (fun i => l[i]?)).Sublist (l.drop j) by
+    simpa using this 0 (by simp)
+  intro j his
+  induction is generalizing j with
+  | nil => simp
+  | cons hd tl ih =>
+    have h2 := List.pairwise_cons.1 h
+    have ih' := ih h2.2 (hd + 1) (fun i hi => h2.1 i hi)
+    have hj : j ≤ hd := his hd (by simp)
+    by_cases hlt : hd < l.length
+    · have : l[hd]? = some l[hd] := List.getElem?_eq_getElem hlt
+      simp only [List.filterMap_cons, this]
+      have hd' : l.drop hd = l[hd] :: l.drop (hd + 1) := List.drop_eq_getElem_cons hlt
+      exact ((hd' ▸ ih'.cons_cons l[hd]) : _).trans (List.drop_sublist_drop_left l hj)
+    · have : l[hd]? = none := List.getElem?_eq_none (by omega)
+      simp only [List.filterMap_cons, this]
+      exact ih'.trans (List.drop_sublist_drop_left l (by omega))
+
+theorem sliceIndices_increasing (a b : Option Int) (c : Int) (n : Nat) (hc : 0 < c) :
+    (sliceIndices a b c n).Pairwise (· < ·) := by
+  unfold sliceIndices
+  simp only [hc, if_true]
+  exact List.pairwise_lt_range' (step := c.toNat) (pos := by omega)
+
+theorem eqTerms_iff : ∀ (l l' : List Term), eqTerms l l' = true ↔
+    l.length = l'.length ∧ ∀ i (h : i < l.length) (h' : i < l'.length), termEq l[i] l'[i] = true
+  | [], [] => by simp [eqTerms]
+  | [], y :: ys => by simp [eqTerms]
+  | x :: xs, [] => by simp [eqTerms]
+  | x :: xs, y :: ys => by
+    simp only [eqTerms, Bool.and_eq_true, eqTerms_iff xs ys, List.length_cons, Nat.add_right_cancel_iff]
+    constructor
+    · rintro ⟨h0, hl, hr⟩
+      refine ⟨hl, fun i h h' => ?_⟩
+      cases i with
+      | zero => simpa using h0
+      | succ j => simpa using hr j (by omega) (by omega)
+    · rintro ⟨hl, hr⟩
+      refine ⟨by simpa using hr 0 (by omega) (by omega), hl, fun i h h' => ?_⟩
+      have := hr (i + 1) (by omega) (by omega)
+      simpa only [List.getElem_cons_succ] using this
+
+theorem zipIdx_filter_range' {α : Type} (s m : Nat) : ∀ (l : List α) (k : Nat),
+    ((l.zipIdx k).filter (fun xi => !(List.range' s m).contains xi.2)).map (·.1)
+      = l.take (s - k) ++ l.drop (s + m - k)
+  | [], k => by simp
+  | x :: r, k => by
+    have ih := zipIdx_filter_range' s m r (k + 1)
+    simp only [List.zipIdx_cons, List.filter_cons]
+    by_cases hk : s ≤ k ∧ k < s + m
+    · have hc : (List.range' s m).contains k = true := by
+        simp only [List.contains_iff_mem]; exact List.mem_range'_1.2 hk
+      simp only [hc, Bool.not_true, Bool.false_eq_true, if_false, ih]
+      have h1 : s - k = 0 := by omega
+      have h2 : s - (k + 1) = 0 := by omega
+      obtain ⟨n, hn⟩ : ∃ n, s + m - k = n + 1 := ⟨s + m - k - 1, by omega⟩
+      have h3 : s + m - (k + 1) = n := by omega
+      simp [h1, h2, hn, h3]
+    · have hc : (List.range' s m).contains k = false := by
+        rw [← Bool.not_eq_true]
+        simp only [List.contains_iff_mem]
+        intro hm; exact hk (List.mem_range'_1.1 hm)
+      simp only [hc, Bool.not_false, if_true, List.map_cons, ih]
+      by_cases hlt : k < s
+      · obtain ⟨n, hn⟩ : ∃ n, s - k = n + 1 := ⟨s - k - 1, by omega⟩
+        obtain ⟨n2, hn2⟩ : ∃ n, s + m - k = n + 1 := ⟨s + m - k - 1, by omega⟩
+        have h2 : s - (k + 1) = n := by omega
+        have h3 : s + m - (k + 1) = n2 := by omega
+        simp [hn, hn2, h2, h3]
+      · have h1 : s - k = 0 := by omega
+        have h2 : s - (k + 1) = 0 := by omega
+        have h3 : s + m - k = 0 := by omega
+        have h4 : s + m - (k + 1) = 0 := by omega
+        simp [h1, h2, h3, h4]
+
+theorem delSliceX_step_one (l : List Term) (a b : Int) :
+    delSliceX l (some a) (some b) 1 = .ok (delSlice l a b) := by
+  have h01 : ((1 : Int) == 0) = false := by decide
+  simp only [delSliceX, h01, Bool.false_eq_true, if_false, Except.ok.injEq]
+  unfold removeIdxs sliceIndices delSlice
+  simp only [show (0 : Int) < 1 by decide, if_true]
+  have h1 : (1 : Int).toNat = 1 := by decide
+  rw [h1]
+  simp only [Nat.add_sub_cancel, Nat.div_one]
+  rw [zipIdx_filter_range' (clampIdx a l.length) (clampIdx b l.length - clampIdx a l.length) l 0]
+  simp only [Nat.sub_zero]
+  congr 2
+  omega
+
 theorem step_inv (o : SFm.Ordering) (l : List Term) (op : Op) (hs : OrderingInv o l) :
     OrderingInv o (step o l op).1 := by
   cases op with
@@ -361,6 +503,25 @@ theorem step_inv (o : SFm.Ordering) (l : List Term) (op : Op) (hs : OrderingInv 
     | ok _ => exact ofExcept_inv o l _ hs (fun l' h => delItem_inv o l l' i hs h)
     | error e => exact hs
   | reverse => exact reverseLoop_inv o _ _ l hs
+  | iadd ts => exact extend_inv o ts l hs
+  | setSlice a b c v =>
+    refine ofExcept_inv o l _ hs (fun l' h => ?_)
+    cases v <;> simp [setSlice] at h
+  | delSliceX a b c => exact ofExcept_inv o l _ hs (fun l' h => delSliceX_inv o l l' a b c hs h)
+  | clear =>
+    simp only [step, sf_clearLoop_spec (l.length + 1) l (Nat.lt_succ_self _)]
+    cases o with
+    | none => trivial
+    | degree => exact List.Pairwise.nil
+    | sort => exact ⟨List.Pairwise.nil, by simp⟩
+  | remove t => exact ofExcept_inv o l _ hs (fun l' h => remove_inv o l l' t hs h)
+  | getSlice a b c => exact hs
+  | index t => exact hs
+  | count t => exact hs
+  | contains t => exact hs
+  | reversed => exact hs
+  | eq other => exact hs
+  | eqForeign => exact hs
 
 theorem run_inv (o : SFm.Ordering) (ops : List Op) (l : List Term) (hs : OrderingInv o l) :
     OrderingInv o (run o l ops) := by
